@@ -345,3 +345,28 @@ pub fn sdk_liquidatable(w: &World, d: &Dep, mi: usize, position: &Pubkey, prices
     }
     r.ok().map(|r| r.is_some())
 }
+
+/// pnl-to-pool factor (maximised, as the ADL check uses it) of one side, on the SDK's model of the market
+/// account in `w` (the fee state is brought up to date with the program's update_fees_state on a fork when
+/// `refresh` is set). Returns `(factor, max_for_adl, min_after_adl)`.
+pub fn sdk_pnl_factor(w: &World, d: &Dep, mi: usize, prices: &Prices<u128>, is_long: bool, refresh: bool) -> Option<(i128, u128, u128)> {
+    use gmsol_model::BaseMarketExt;
+    let mk = &d.markets[mi];
+    let f;
+    let src = if refresh {
+        let mut x = w.clone();
+        if !x.process(chainsim::ex::update_fees_state_ix(d, mk)).ok {
+            return None;
+        }
+        f = x;
+        &f
+    } else {
+        w
+    };
+    let sdk = sdk_model(src, &mk.market, &mk.market_token)?;
+    gmsol_programs::model::verif_set_now(Some(w.clock.unix_timestamp));
+    let factor = sdk.pnl_factor(prices, is_long, true).ok()?;
+    let max = sdk.pnl_factor_config(PnlFactorKind::ForAdl, is_long).ok()?;
+    let min = sdk.pnl_factor_config(PnlFactorKind::MinAfterAdl, is_long).ok()?;
+    Some((factor, max, min))
+}
